@@ -73,7 +73,7 @@ def gen_slices(ctx, rnd, out):
             for lo in idxs:
                 for hi in idxs:
                     for st in steps:
-                        if ctx.quick and n >= 3 and rnd.random() < 0.5:
+                        if n >= 3 and rnd.random() < (0.5 if ctx.quick else (0.0 if n <= 5 else 0.6)):
                             continue
                         src = "%s[%s:%s:%s]" % (rs, "" if not lo["some"] else lo["v"], "" if not hi["some"] else hi["v"],
                                                 "" if not st["some"] else st["v"])
@@ -112,7 +112,7 @@ def gen_search(ctx, rnd, out):
         for sub in needles:
             for lo in rng:
                 for hi in rng:
-                    if rnd.random() < (0.8 if ctx.quick else 0.5) and n >= 3:
+                    if rnd.random() < (0.8 if ctx.quick else 0.94) and n >= 3:
                         continue
                     args = [q(sub)]
                     if lo["some"] or hi["some"] or rnd.random() < 0.1:
@@ -154,7 +154,7 @@ def gen_split(ctx, rnd, out):
     for s in all_strings(alpha, maxlen):
         for sep in seps:
             for cnt in counts:
-                if ctx.quick and len(s) >= 4 and rnd.random() < 0.6:
+                if len(s) >= 4 and rnd.random() < (0.6 if ctx.quick else 0.8):
                     continue
                 args = []
                 if sep is not None or cnt is not None:
